@@ -185,8 +185,32 @@ def long_line_pair(draw):
 
 
 @st.composite
+def long_list_pair(draw):
+    """Two lists of about a thousand items (a column of numbers) that differ by a few insertions / deletions / replacements."""
+    n = draw(st.sampled_from([995, 1001, 1001, 1040, 1200]))
+    kind = draw(st.sampled_from(["ints", "mixed"]))
+    a = [i * 3 % 977 for i in range(n)] if kind == "ints" else [[i % 7, "r%d" % (i % 13)] if i % 5 == 0 else i % 89 for i in range(n)]
+    b = list(a)
+    for _ in range(draw(st.integers(1, 3))):
+        op = draw(st.sampled_from(["ins", "ins", "del", "rep"]))
+        k = draw(st.integers(0, len(b) - 1))
+        if op == "ins":
+            b[k:k] = [draw(st.sampled_from([-1, 2.5, "new", True]))] * draw(st.integers(1, 2))
+        elif op == "del":
+            del b[k:k + draw(st.integers(1, 2))]
+        else:
+            b[k] = "replaced"
+    if draw(st.booleans()):
+        a, b = b, a
+    wrap = draw(st.sampled_from(["list", "list", "dict"]))
+    return ({"column": a, "n": len(a)}, {"column": b, "n": len(b)}, "long_list") if wrap == "dict" else (a, b, "long_list")
+
+
+@st.composite
 def pair(draw):
     """(a, b, relation) of equal container type."""
+    if draw(st.sampled_from(range(150))) == 75:
+        return draw(long_list_pair())
     if draw(st.integers(0, 24)) == 0:
         return draw(long_line_pair())
     a = draw(container())
